@@ -5,7 +5,12 @@
  * performs is a schedule point or a virtualised environment answer.
  */
 #include <stddef.h>
-#include "vsx.h"
+#ifdef VSX_FREE
+#    define GALLOC_PASSTHROUGH 1
+#    include "vsx_free.h"
+#else
+#    include "vsx.h"
+#endif
 #include "galloc.h"
 #include <aws/common/clock.h>
 #include <aws/common/task_scheduler.h>
